@@ -403,9 +403,10 @@ Proof.
 Qed.
 
 (* ---- homekill / starvation / final population with the country's constants (no homekill hours) *)
-Lemma phase_c_spec : forall st pop_start sv b, 0 < st_hours st -> 0 <= st_starv st -> 0 <= b_other_death b ->
+Lemma phase_c_spec : forall st pop_start sv b budget, budget == 0 ->
+  0 < st_hours st -> 0 <= st_starv st -> 0 <= b_other_death b ->
   0 <= b_ptot b -> 0 <= b_pbirth b ->
-  let c := phase_c st pop_start sv b hk_hours_total in
+  let c := phase_c st pop_start sv b budget in
   c_hk_other c == 0 /\ c_hk_healthy c == 0 /\ c_hk_starving c == 0 /\ c_hk_total c == 0 /\ c_budget c == 0 /\
   0 <= c_starve_death c /\ c_od_total c == c_starve_death c + b_other_death b /\
   (sv - b_slaughter b <= 0 -> c_starve_death c == 0) /\
@@ -414,15 +415,16 @@ Lemma phase_c_spec : forall st pop_start sv b, 0 < st_hours st -> 0 <= st_starv 
   (b_pop1 b - c_starve_death c <= 0 -> c_pop c == 0) /\
   0 <= c_ptot c /\ 0 <= c_pbirth c.
 Proof.
-  intros st pop_start sv b Hh Hsv Hod Hpt Hpb. unfold phase_c, hk_hours_total, hk_other_rate, hk_fraction.
+  intros st pop_start sv b budget Hb0 Hh Hsv Hod Hpt Hpb. unfold phase_c, hk_other_rate, hk_fraction.
   pose proof (zero_div (st_hours st)) as Z.
   set (h := st_hours st) in *.
+  assert (Z0 : budget / h == 0) by (rewrite Hb0; exact Z).
   (* hk1 *)
-  assert (H1 : pymin (b_other_death b * (1 # 2)) (0 / h) == 0).
-  { destruct (pymin_cases (b_other_death b * (1 # 2)) (0 / h)) as [[L ->]|[L ->]]; lra. }
-  set (hk1 := pymin (b_other_death b * (1 # 2)) (0 / h)) in *.
-  assert (B1 : 0 - hk1 * h == 0) by (rewrite H1; ring).
-  set (bud1 := 0 - hk1 * h) in *.
+  assert (H1 : pymin (b_other_death b * (1 # 2)) (budget / h) == 0).
+  { destruct (pymin_cases (b_other_death b * (1 # 2)) (budget / h)) as [[L ->]|[L ->]]; lra. }
+  set (hk1 := pymin (b_other_death b * (1 # 2)) (budget / h)) in *.
+  assert (B1 : budget - hk1 * h == 0) by (rewrite H1, Hb0; ring).
+  set (bud1 := budget - hk1 * h) in *.
   assert (Z1 : bud1 / h == 0) by (rewrite B1; exact Z).
   assert (H2 : pymin (0 * b_pop1 b) (bud1 / h) == 0).
   { destruct (pymin_cases (0 * b_pop1 b) (bud1 / h)) as [[L ->]|[L ->]]; lra. }
@@ -474,23 +476,24 @@ Proof.
 Qed.
 
 (* ---- the ledger of one herd and one month, single clamp *)
-Lemma ledger_one : forall month0 st a tr remaining sv, static_ok st -> 0 <= remaining -> 0 <= s_pop (a_state a) ->
+Lemma ledger_one : forall month0 st a tr remaining sv budget, budget == 0 ->
+  static_ok st -> 0 <= remaining -> 0 <= s_pop (a_state a) ->
   let b := phase_b month0 st a tr remaining in
-  let c := phase_c st (s_pop (a_state a)) sv b hk_hours_total in
+  let c := phase_c st (s_pop (a_state a)) sv b budget in
   let x := s_pop (a_state a) + a_births a + (if st_milk st then 0 else tr) - (if st_milk st then a_ret a else 0)
            - b_other_death b - b_slaughter b - c_starve_death c - c_hk_healthy c - c_hk_starving c in
   (0 <= x -> c_pop c == x) /\ (x <= 0 -> c_pop c == 0) /\ 0 <= c_pop c.
 Proof.
-  intros month0 st a tr remaining sv Hok Hrem Hpop.
+  intros month0 st a tr remaining sv budget Hb0 Hok Hrem Hpop.
   pose proof (phase_b_spec month0 st a tr remaining Hok Hrem) as B. cbn zeta in B.
   destruct Hok as (Hh & Hbs & Ht & Hd & Hsv & Hrf & Hpp & Hra & Hge & Hred).
   destruct B as (Ba & Bt & Bo & Bs & Bp & B1 & B2 & _ & _ & _ & _ & Bpt & Bpb).
   assert (Hod : 0 <= b_other_death (phase_b month0 st a tr remaining)) by (rewrite Bo; nra).
-  pose proof (phase_c_spec st (s_pop (a_state a)) sv _ Hh Hsv Hod Bpt Bpb) as C. cbn zeta in C.
+  pose proof (phase_c_spec st (s_pop (a_state a)) sv _ budget Hb0 Hh Hsv Hod Bpt Bpb) as C. cbn zeta in C.
   destruct C as (_ & C2 & C3 & _ & _ & C6 & _ & _ & _ & C10 & C11 & _).
   cbn zeta. rewrite Ba in *.
   set (b := phase_b month0 st a tr remaining) in *.
-  set (c := phase_c st (s_pop (a_state a)) sv b hk_hours_total) in *.
+  set (c := phase_c st (s_pop (a_state a)) sv b budget) in *.
   set (pre := s_pop (a_state a) - (b_other_death b + (if st_milk st then a_ret a else 0)) +
               (if st_milk st then a_births a else a_births a + tr)) in *.
   assert (Ex : s_pop (a_state a) + a_births a + (if st_milk st then 0 else tr) - (if st_milk st then a_ret a else 0)
@@ -610,4 +613,33 @@ Proof.
     assert (0 <= s_pbirth s * st_perpreg st / st_ratio st) by (apply div_nonneg; assumption).
     repeat split; try assumption; try reflexivity; try lra;
       try (intros C R; apply Qmult_le_0_compat; [apply Qmult_le_0_compat|]; lra); try nra.
+Qed.
+
+(* ---- the homekill budget handed from herd to herd by the loop stays 0, so phase_c_spec / ledger_one apply to every herd *)
+Fixpoint budgets (l : list (sstatic * Q * Q * phaseB)) (budget : Q) : list Q :=
+  match l with
+  | [] => []
+  | (st, ps, sv, b) :: l' => budget :: budgets l' (c_budget (phase_c st ps sv b budget))
+  end.
+
+Lemma budgets_zero : forall l budget, budget == 0 ->
+  Forall (fun x : sstatic * Q * Q * phaseB =>
+            let '(st, _, _, b) := x in
+            0 < st_hours st /\ 0 <= st_starv st /\ 0 <= b_other_death b /\ 0 <= b_ptot b /\ 0 <= b_pbirth b) l ->
+  Forall (fun q => q == 0) (budgets l budget).
+Proof.
+  induction l as [|[[[st ps] sv] b] l IH]; intros budget Hb H; cbn [budgets]; constructor; [exact Hb|].
+  inversion H as [|? ? Hx Hl]; subst. cbn beta iota in Hx. destruct Hx as (H1 & H2 & H3 & H4 & H5).
+  apply IH; [|exact Hl].
+  pose proof (phase_c_spec st ps sv b budget Hb H1 H2 H3 H4 H5) as C. cbn zeta in C.
+  destruct C as (_ & _ & _ & _ & C5 & _). exact C5.
+Qed.
+
+Lemma phase_c_loop_unfold : forall l budget,
+  phase_c_loop l budget =
+  map (fun xq : (sstatic * Q * Q * phaseB) * Q => let '(st, ps, sv, b, q) := xq in phase_c st ps sv b q)
+      (combine l (budgets l budget)).
+Proof.
+  induction l as [|[[[st ps] sv] b] l IH]; intro budget; cbn [phase_c_loop budgets combine map]; [reflexivity|].
+  rewrite IH. reflexivity.
 Qed.
